@@ -725,6 +725,20 @@ func (e *Env) call(n *Node, hint *Sym) *Sym {
 	case "allocated":
 		x := e.eval(n.Args[0], nil)
 		return scalar(types.Typ[types.Bool], mkAnd(app(SBool, "<", mkInt64(0), x.L[0]), app(SBool, "<=", x.L[0], e.st.ctr)))
+	case "arrof", "offof":
+		v := e.eval(n.Args[0], nil)
+		if v.T == nil || kindOf(v.T) != KSlice {
+			panic(name + " of non-slice")
+		}
+		if name == "arrof" {
+			return &Sym{L: []*Term{v.L[0]}}
+		}
+		return scalar(types.Typ[types.Int], v.L[1])
+	case "asptr":
+		// asptr(x, "pkg.Type"): view the interface/ref value x as a *pkg.Type
+		v := e.eval(n.Args[0], nil)
+		t := e.x.typeByName(n.Args[1].Name)
+		return &Sym{T: types.NewPointer(t), L: []*Term{v.term()}}
 	case "ifield":
 		// ifield(x, "pkg.Type", "Field"): field of the struct value boxed in interface value x
 		v := e.eval(n.Args[0], nil)
